@@ -72,24 +72,50 @@ def main():
     finally:
         sh("git -C /repo worktree remove --force %s" % wt)
         shutil.rmtree(wt, ignore_errors=True)
-    # run the registered checks against /repo with the change applied
+    # run the registered checks against a scratch worktree with the change applied (VERIF_REPO); --in-repo applies it
+    # to /repo itself instead (git -C /repo apply …; checks; git -C /repo checkout -- .)
     detected = {}
-    rc, out = sh("git -C /repo apply --whitespace=nowarn %s" % os.path.abspath(patch))
+    in_repo = "--in-repo" in sys.argv
+    wt2 = "/tmp/mutcheck/run_" + sid
+    if in_repo:
+        rc, out = sh("git -C /repo apply --whitespace=nowarn %s" % os.path.abspath(patch))
+        target = "/repo"
+    else:
+        sh("git -C /repo worktree remove --force %s" % wt2)
+        shutil.rmtree(wt2, ignore_errors=True)
+        rc, out = sh("git -C /repo worktree add -q --detach %s HEAD" % wt2)
+        if rc == 0:
+            rc, out = sh("git apply --whitespace=nowarn %s" % os.path.abspath(patch), cwd=wt2)
+        target = wt2
     if rc != 0:
-        meta["error"] = "patch does not apply to /repo: " + out[-300:]
+        meta["error"] = "patch does not apply: " + out[-300:]
     else:
         try:
             for c in checks:
                 t0 = time.time()
-                rc, out = sh([os.path.join(VERIF, "check"), c, tier], cwd=VERIF, timeout=3600)
+                env = dict(ENV)
+                if not in_repo:
+                    env["VERIF_REPO"] = target
+                p = subprocess.run([os.path.join(VERIF, "check"), c, tier], cwd=VERIF, env=env, stdout=subprocess.PIPE, stderr=subprocess.STDOUT, text=True, timeout=3600)
+                rc, out = p.returncode, p.stdout
                 lines = [l for l in out.splitlines() if l.startswith("VIOLATION") or l.startswith("KNOWN-FINDING") or l.startswith(c + " ")]
                 detected[c] = {"exit": rc, "lines": lines[:8], "wall_s": round(time.time() - t0, 1)}
-                meta["ran"].append("./check %s %s  (with the change applied to /repo) -> exit %d" % (c, tier, rc))
+                # keep the first replay's description for the record
+                for l in lines:
+                    m = re.search(r"replay=(\S+)", l)
+                    if m and os.path.exists(m.group(1)):
+                        try:
+                            rp = json.load(open(m.group(1)))
+                            detected[c].setdefault("what", []).append(rp.get("what", "")[:200])
+                        except Exception:
+                            pass
+                meta["ran"].append("./check %s %s  (change applied to %s) -> exit %d" % (c, tier, "/repo" if in_repo else "a scratch worktree via VERIF_REPO", rc))
         finally:
-            sh("git -C /repo checkout -- . && git -C /repo clean -fdq -- . ':!*_test.go' 2>/dev/null; git -C /repo status --porcelain")
-            rc, out = sh("git -C /repo status --porcelain")
-            if out.strip():
+            if in_repo:
                 sh("git -C /repo checkout -- .")
+            else:
+                sh("git -C /repo worktree remove --force %s" % wt2)
+                shutil.rmtree(wt2, ignore_errors=True)
     meta["detected_by"] = detected
     meta["caught"] = any(v["exit"] == 1 for v in detected.values())
     d = os.path.join(VERIF, "seeded", sid)
